@@ -40,15 +40,17 @@ type MCase struct {
 }
 
 type MResult struct {
-	Full    []int
-	Obs     []Obs
-	Events  []Event
-	Handled []int
-	Terms   int
-	Reason  int
-	Final   int
-	MaxOpen int32
-	Stalled string
+	Full          []int
+	Obs           []Obs
+	Events        []Event
+	Handled       []int
+	Terms         int
+	Reason        int
+	Final         int
+	MaxOpen       int32
+	DoubleRelease int
+	DoubleAt      string
+	Stalled       string
 }
 
 var metaLabelCode = map[string]int{
@@ -282,6 +284,36 @@ func runMetaCase(node gen.Node, c MCase) (MResult, [][]int) {
 			next = en[prng.Intn(len(en))]
 		case c.Policy == "highest":
 			next = en[len(en)-1]
+		case c.Policy == "handlerfirst":
+			// goroutines of the mailbox handler first (highest first), then the senders in order, the start()
+			// goroutine (thread 0, inside the Start callback) last
+			next = -1
+			for _, e := range en {
+				if e > len(c.Threads) {
+					next = e
+				}
+			}
+			if next < 0 {
+				for _, e := range en {
+					if e != 0 {
+						next = e
+						break
+					}
+				}
+			}
+			if next < 0 {
+				next = en[0]
+			}
+		case c.Policy == "nonpreempt:highest":
+			next = en[len(en)-1]
+			if len(res.Full) > 0 {
+				last := res.Full[len(res.Full)-1]
+				for _, e := range en {
+					if e == last {
+						next = last
+					}
+				}
+			}
 		case c.Policy == "nonpreempt":
 			if len(res.Full) > 0 {
 				last := res.Full[len(res.Full)-1]
@@ -309,6 +341,7 @@ func runMetaCase(node gen.Node, c MCase) (MResult, [][]int) {
 	res.Terms = pr.terms
 	res.Reason = pr.reason
 	res.MaxOpen = pr.maxOpen
+	res.DoubleRelease, res.DoubleAt = pool.report()
 	pr.mu.Unlock()
 	node.Kill(ppid)
 	return res, enabledAt
@@ -345,8 +378,15 @@ func coqMetaCase(c MCase, r MResult) string {
 
 func genMetaCase(r *rand.Rand) MCase {
 	c := MCase{StartN: r.Intn(4), StartReason: []int{3, 3, 4, 5, 2}[r.Intn(5)]}
+	nmsg := r.Intn(4)
+	if r.Intn(2) == 0 {
+		// Start() stays inside its callback for a long time: the mailbox handler falls asleep and is woken
+		// again (sleep / re-check / wake paths) instead of being cut short by the termination
+		c.StartN = 25 + r.Intn(40)
+		nmsg = 2 + r.Intn(4)
+	}
 	id := 1
-	for i := r.Intn(4); i > 0; i-- {
+	for i := nmsg; i > 0; i-- {
 		m := MMsg{ID: id, Beh: "ok", N: r.Intn(3)}
 		if r.Intn(6) == 0 {
 			m.Beh, m.Reason = "err", 5+r.Intn(3)
@@ -365,6 +405,56 @@ func genMetaCase(r *rand.Rand) MCase {
 	c.Policy = []string{"lowest", "highest", "nonpreempt", fmt.Sprintf("random:%d", r.Int63()), fmt.Sprintf("random:%d", r.Int63())}[r.Intn(5)]
 	c.Tags = []string{}
 	return c
+}
+
+// metaDeviations: deviation enumeration (stateless, depth 1, complete per configuration and base order):
+// run a non-preemptive base schedule, then every schedule that leaves it at ONE position for ANY other
+// enabled thread and is completed by the same policy. This reaches the narrow windows random walks miss
+// (a push between the handler's last empty Pop and its sleep re-check, Start() ending inside a callback, ...).
+func metaDeviations(node gen.Node, budget int, emit func(MCase, MResult)) (runs int, complete bool) {
+	ok := func(id, n int) MMsg { return MMsg{ID: id, Beh: "ok", N: n} }
+	cfgs := []MCase{
+		{StartN: 40, StartReason: 3, Threads: []MThread{{Kind: "S", Msg: ok(1, 0)}, {Kind: "S", Msg: ok(2, 0)}}},
+		{StartN: 40, StartReason: 3, Threads: []MThread{{Kind: "S", Msg: ok(1, 1)}, {Kind: "S", Msg: ok(2, 0)}, {Kind: "S", Msg: ok(3, 0)}}},
+		{StartN: 2, StartReason: 3, Threads: []MThread{{Kind: "S", Msg: ok(1, 1)}, {Kind: "S", Msg: ok(2, 0)}}},
+		{StartN: 2, StartReason: 2, Threads: []MThread{{Kind: "S", Msg: ok(1, 2)}}},
+		{StartN: 40, StartReason: 4, Threads: []MThread{{Kind: "S", Msg: MMsg{ID: 1, Beh: "err", Reason: 6}}, {Kind: "S", Msg: ok(2, 0)}}},
+		{StartN: 6, StartReason: 3, Threads: []MThread{{Kind: "S", Msg: ok(1, 1)}, {Kind: "X", Msg: MMsg{ID: 2, Beh: "err", Reason: 1}}}},
+	}
+	complete = true
+	for _, base := range cfgs {
+		for _, pol := range []string{"nonpreempt", "nonpreempt:highest", "highest", "handlerfirst"} {
+			b := base
+			b.Policy = pol
+			if pol == "handlerfirst" {
+				// let start() reach the Start callback first (state Sleep, first handler spawned)
+				b.Sched = []int{0, 0, 0, 0}
+			}
+			b.Tags = []string{"deviation-base"}
+			res, enabled := runMetaCase(node, b)
+			emit(b, res)
+			runs++
+			for i := len(b.Sched); i < len(res.Full) && i < len(enabled); i++ {
+				for _, a := range enabled[i] {
+					if a == res.Full[i] {
+						continue
+					}
+					if runs >= budget {
+						complete = false
+						return
+					}
+					d := base
+					d.Policy = pol
+					d.Sched = append(append([]int{}, res.Full[:i]...), a)
+					d.Tags = []string{"deviation-1"}
+					r2, _ := runMetaCase(node, d)
+					emit(d, r2)
+					runs++
+				}
+			}
+		}
+	}
+	return
 }
 
 // regression schedules (run first on every check)
